@@ -1300,6 +1300,13 @@ fn gen_vals(rng: &mut Rng, n: usize, out: &mut Out) -> Vec<usize> {
         } else { x };
         v.push(x as usize);
     }
+    // single-bit values at arbitrary positions (every entry of a bit-position table gets exercised over the runs)
+    if n > 0 && rng.chance(1, 3) {
+        for _ in 0..rng.range(1, 6) {
+            let i = rng.below(n as u64) as usize;
+            v[i] = (1u64 << rng.below(maxbits)) as usize;
+        }
+    }
     if class == 5 { v.iter_mut().for_each(|x| *x = 0); }
     if class == 6 && n > 0 { let c = v[0]; v.iter_mut().for_each(|x| *x = c); }
     v
